@@ -2,18 +2,50 @@
 (* Trace validation of StroquOOL runs against StroquOOL.tla. *)
 EXTENDS StroquOOL, TraceTree, Json, IOUtils, TLCExt
 Traces == JsonDeserialize(IOEnv.TRACE_FILE)
-VARIABLES tid, l, T, f, cand, ended, asked, ph, err, done
-vars == <<tid, l, T, f, cand, ended, asked, ph, err, done>>
+VARIABLES tid, l, T, f, cand, ended, asked, ph, err, done, z, chosen, csets, sched
+vars == <<tid, l, T, f, cand, ended, asked, ph, err, done, z, chosen, csets, sched>>
 Tr == Traces[tid]
 PP == Tr.P
 Ev == Tr.ev
-ApplyFc(ff, fc) == FoldLeft(LAMBDA acc, x : IF x[1] \in DOMAIN acc THEN [acc EXCEPT ![x[1]] = SubSeq(x, 2, 5)] ELSE acc, ff, fc)
+ApplyFc(ff, fc) == FoldLeft(LAMBDA acc, x : IF x[1] \in DOMAIN acc THEN [acc EXCEPT ![x[1]] = SubSeq(x, 2, 6)] ELSE acc, ff, fc)
 Changed(ff, g) == {c \in DOMAIN ff : ff[c] # g[c]}
 Init == /\ tid \in 1 .. Len(Traces) /\ l = 1 /\ ph = "new" /\ err = "ok" /\ done = FALSE
         /\ T = [n |-> 0] /\ f = <<>> /\ cand = {} /\ ended = FALSE /\ asked = {}
+        /\ z = ZInit /\ chosen = <<>> /\ csets = <<>> /\ sched = "ok"
 CallFail(e) == IF Has(e, "hang") THEN "call.hangs" ELSE IF Has(e, "exc") THEN "call.raises"
                ELSE IF e.k \in {"pull", "glp"} /\ e.ptok # 1 THEN "call.not-a-point"
                ELSE IF ~NoStructChange(e) \/ e.pd # T.pdepth THEN "call.struct-change" ELSE "ok"
+
+HMax == PP.hmax
+\* ---- the schedule (beyond the listed properties; first deviation is kept in `sched`, it never stops the walk) ----
+MeanCode(ff, c) == ff[c][5]
+CandSet(ff, q) == LET E == {c \in SeqRange(chosen) : Cnt(ff, c) >= 2 ^ q} IN {c \in E : \A d \in E : MeanCode(ff, c) >= MeanCode(ff, d)}
+
+SchedMk(e, f1) ==     \* an expansion: which cell may be opened now
+  IF z.ph = "root" /\ z.fresh THEN (IF e.p = 1 THEN "ok" ELSE "stro.first-expansion-not-root")
+  ELSE IF z.ph = "open" /\ z.fresh THEN (IF e.p \in OpenChoices(T, f1, z.d, z.p) THEN "ok" ELSE "stro.opened-not-best-qualifying")
+  ELSE "stro.unexpected-expansion"
+
+SchedPull(e, f1) ==   \* a hand-out: <<verdict, next schedule state, candidate sets>>
+  LET cs == SeqRange(e.cands) IN
+  IF z.ph \in {"root", "open"}
+  THEN LET v0 == IF z.fresh /\ (z.ph = "root" \/ Qualifying(T, f, z.d, z.p) # {}) THEN "stro.missing-expansion" ELSE "ok"
+           m  == z.m
+           want == IF m \in Cells(T) /\ Len(T.kids[m]) >= 2 THEN T.kids[m][z.k] ELSE 0
+           c1 == z.c + 1
+           z1 == IF c1 >= Quota(HMax, z) THEN AfterKid(HMax, [z EXCEPT !.fresh = FALSE]) ELSE [z EXCEPT !.c = c1, !.fresh = FALSE]
+       IN <<IF v0 # "ok" THEN v0 ELSE IF ~(want \in cs) THEN "stro.wrong-cell-or-count" ELSE "ok", z1, csets>>
+  ELSE IF z.ph = "val"
+  THEN LET A  == [q \in 1 .. PP.pmax + 1 |-> CandSet(f, q - 1)]
+           Rs == Restarted(f, f1)
+           cset == IF z.fresh THEN [q \in 1 .. PP.pmax + 1 |-> A[q] \cap Rs] ELSE csets
+           v0 == IF z.fresh /\ ~(Rs \subseteq UNION {A[q] : q \in DOMAIN A} /\ \A q \in DOMAIN A : A[q] \cap Rs # {}) THEN "stro.candidates" ELSE "ok"
+           ok == z.slot + 1 \in DOMAIN cset /\ cs \cap cset[z.slot + 1] # {}
+           c1 == z.c + 1
+           z1 == IF c1 >= HMax THEN (IF z.slot + 1 > PP.pmax THEN [z EXCEPT !.ph = "end", !.fresh = FALSE] ELSE [z EXCEPT !.slot = @ + 1, !.c = 0, !.fresh = FALSE])
+                 ELSE [z EXCEPT !.c = c1, !.fresh = FALSE]
+       IN <<IF v0 # "ok" THEN v0 ELSE IF ~ok THEN "stro.validated-wrong-cell" ELSE "ok", z1, cset>>
+  ELSE <<"ok", z, csets>>
 
 PullStep(e) ==
   LET f1 == ApplyFc(f, e.fc)
@@ -34,7 +66,7 @@ RecvStep(e) ==
         err |-> IF ~(\E c \in asked : CreditOK(f, f1, c, e.r)) THEN (IF ch \cap asked = {} THEN "credit.wrong-cell" ELSE "credit.reward") ELSE "ok"]
 
 GlpStep(e) ==
-  IF e.fc # <<>> /\ ~(\A i \in DOMAIN e.fc : SubSeq(e.fc[i], 2, 5) = f[e.fc[i][1]]) THEN "rec.mutates"
+  IF e.fc # <<>> /\ ~(\A i \in DOMAIN e.fc : SubSeq(e.fc[i], 2, 5) = SubSeq(f[e.fc[i][1]], 1, 4)) THEN "rec.mutates"
   ELSE IF cand = {} \/ RecBest(f, cand) = {} THEN "ok"            \* stopped before validation produced anything: unspecified
   ELSE IF SeqRange(e.cands) \cap cand = {} THEN "rec.not-a-candidate"
   ELSE IF SeqRange(e.cands) \cap RecBest(f, cand) = {} THEN "rec.not-best-validated" ELSE "ok"
@@ -43,37 +75,44 @@ Step ==
   /\ ~done /\ err = "ok" /\ l <= Len(Ev)
   /\ LET e == Ev[l] IN
      CASE e.k = "init" ->
-            /\ T' = TreeOfInit(e) /\ f' = [c \in DOMAIN e.f |-> SubSeq(e.f[c], 1, 4)] /\ err' = InitCheck(PP, e) /\ ph' = "told"
-            /\ UNCHANGED <<cand, ended, asked>>
+            /\ T' = TreeOfInit(e) /\ f' = [c \in DOMAIN e.f |-> SubSeq(e.f[c], 1, 5)] /\ err' = InitCheck(PP, e) /\ ph' = "told"
+            /\ UNCHANGED <<cand, ended, asked, z, chosen, csets, sched>>
        [] e.k = "mk" ->
             LET c0 == MkCheck(PP, T, e) IN
-            /\ err' = IF c0 # "ok" THEN c0 ELSE IF ~(\A j \in DOMAIN e.nf : SubSeq(e.nf[j], 2, 4) = <<0, 0, 0>>) THEN "grow.not-fresh" ELSE "ok"
+            /\ err' = IF c0 # "ok" THEN c0 ELSE IF ~(\A j \in DOMAIN e.nf : SubSeq(e.nf[j], 2, 4) = <<0, 0, 0>>) THEN "grow.not-fresh"
+                      ELSE IF ~(\A i \in DOMAIN e.fc : e.fc[i][1] \in DOMAIN f /\ SubSeq(e.fc[i], 2, 5) = SubSeq(f[e.fc[i][1]], 1, 4)) THEN "stats.changed-in-make-children" ELSE "ok"
             /\ T' = IF c0 = "ok" THEN MkApply(PP, T, e) ELSE T
-            /\ f' = IF c0 = "ok" THEN f \o [j \in DOMAIN e.nf |-> SubSeq(e.nf[j], 2, 5)] ELSE f
-            /\ UNCHANGED <<cand, ended, asked, ph>>
+            /\ f' = IF c0 = "ok" THEN ApplyFc(f, e.fc) \o [j \in DOMAIN e.nf |-> SubSeq(e.nf[j], 2, 6)] ELSE f
+            /\ LET v == IF c0 = "ok" /\ PP.consecutive = 1 THEN SchedMk(e, ApplyFc(f, e.fc)) ELSE "ok" IN
+               /\ sched' = (IF sched = "ok" THEN v ELSE sched)
+               /\ z' = (IF c0 = "ok" THEN [z EXCEPT !.m = e.p, !.fresh = FALSE] ELSE z)
+               /\ chosen' = (IF c0 = "ok" /\ Len(e.new) >= 2 THEN chosen \o <<e.new[1].id, e.new[2].id>> ELSE chosen)
+            /\ UNCHANGED <<cand, ended, asked, ph, csets>>
        [] e.k = "pull" ->
             LET c0 == CallFail(e) IN
-            IF ph # "told" THEN err' = "protocol" /\ UNCHANGED <<T, f, cand, ended, asked, ph>>
-            ELSE IF c0 # "ok" THEN err' = c0 /\ UNCHANGED <<T, f, cand, ended, asked, ph>>
+            IF ph # "told" THEN err' = "protocol" /\ UNCHANGED <<T, f, cand, ended, asked, ph, z, chosen, csets, sched>>
+            ELSE IF c0 # "ok" THEN err' = c0 /\ UNCHANGED <<T, f, cand, ended, asked, ph, z, chosen, csets, sched>>
             ELSE LET r == PullStep(e) IN
-                 /\ f' = r.f /\ cand' = r.cand /\ err' = r.err /\ asked' = SeqRange(e.cands) /\ ph' = "asked" /\ UNCHANGED <<T, ended>>
+                 /\ f' = r.f /\ cand' = r.cand /\ err' = r.err /\ asked' = SeqRange(e.cands) /\ ph' = "asked" /\ UNCHANGED <<T, ended, chosen>>
+                 /\ LET sp == IF PP.consecutive = 1 /\ sched = "ok" THEN SchedPull(e, r.f) ELSE <<"ok", z, csets>> IN
+                    /\ sched' = (IF sched = "ok" THEN sp[1] ELSE sched) /\ z' = sp[2] /\ csets' = sp[3]
        [] e.k = "recv" ->
             LET c0 == CallFail(e) IN
-            IF ph # "asked" THEN err' = "protocol" /\ UNCHANGED <<T, f, cand, ended, asked, ph>>
-            ELSE IF c0 # "ok" THEN err' = c0 /\ UNCHANGED <<T, f, cand, ended, asked, ph>>
+            IF ph # "asked" THEN err' = "protocol" /\ UNCHANGED <<T, f, cand, ended, asked, ph, z, chosen, csets, sched>>
+            ELSE IF c0 # "ok" THEN err' = c0 /\ UNCHANGED <<T, f, cand, ended, asked, ph, z, chosen, csets, sched>>
             ELSE LET r == RecvStep(e) IN
-                 /\ f' = r.f /\ ended' = r.ended /\ err' = r.err /\ ph' = "told" /\ UNCHANGED <<T, cand, asked>>
+                 /\ f' = r.f /\ ended' = r.ended /\ err' = r.err /\ ph' = "told" /\ UNCHANGED <<T, cand, asked, z, chosen, csets, sched>>
        [] e.k = "glp" ->
             LET c0 == CallFail(e) IN
             /\ err' = (IF c0 # "ok" THEN c0 ELSE GlpStep(e))
-            /\ UNCHANGED <<T, f, cand, ended, asked, ph>>
-       [] e.k = "end" -> /\ err' = (IF ~StructOK(PP, T) THEN "final.struct" ELSE "ok") /\ UNCHANGED <<T, f, cand, ended, asked, ph>>
-       [] OTHER -> err' = "unknown-event" /\ UNCHANGED <<T, f, cand, ended, asked, ph>>
+            /\ UNCHANGED <<T, f, cand, ended, asked, ph, z, chosen, csets, sched>>
+       [] e.k = "end" -> /\ err' = (IF ~StructOK(PP, T) THEN "final.struct" ELSE "ok") /\ UNCHANGED <<T, f, cand, ended, asked, ph, z, chosen, csets, sched>>
+       [] OTHER -> err' = "unknown-event" /\ UNCHANGED <<T, f, cand, ended, asked, ph, z, chosen, csets, sched>>
   /\ l' = l + 1 /\ UNCHANGED <<tid, done>>
 Finish ==
   /\ ~done /\ (err # "ok" \/ l > Len(Ev))
-  /\ PrintT(<<"VERDICT", Tr.id, err, l - 1, IF T.n > 0 THEN T.n ELSE 0>>)
-  /\ done' = TRUE /\ UNCHANGED <<tid, l, T, f, cand, ended, asked, ph, err>>
+  /\ PrintT(<<"VERDICT", Tr.id, err, l - 1, IF T.n > 0 THEN T.n ELSE 0, sched>>)
+  /\ done' = TRUE /\ UNCHANGED <<tid, l, T, f, cand, ended, asked, ph, err, z, chosen, csets, sched>>
 Next == Step \/ Finish
 Spec == Init /\ [][Next]_vars
 =============================================================================
